@@ -278,13 +278,15 @@ class ArffLineReader(Filter[str, Sequence[str]]):
         while d_line:
             item = d_line.popleft().lstrip()
 
-            if item[0] in self._quotes:
+            if item and item[0] in self._quotes:
                 possible_quotechar = item[0]
                 while item.rstrip()[-1] != possible_quotechar or item.rstrip()[-2] == "\\":
-                    item += "," + d_line.popleft()
+                    #put back what the split on the delimiter took out of the quoted value
+                    item += self._fallback_delim + d_line.popleft()
                 item = item.strip()[1:-1]
 
-            parsed.append(item.replace('\\',''))
+            #a backslash escapes the character after it (as it does for the rows the csv module parses)
+            parsed.append(re.sub(r"\\(.)", r"\1", item))
 
         if len(parsed) != self._n_columns:
             raise CobaException(f"We were unable to parse a line in a way that matched the expected attributes.")
